@@ -9,6 +9,14 @@ CHECKS = {
    note='Assumes cooperative asyncio scheduling, the model of Message construction, and arbitrary interference constrained only by the rely (= the guarantee proved for every writer; completeness of the writer set is a structural obligation). maildir UidList and crash points: not decided here.',
    ref='6 C04'),
 }
+CHECKS['C01'] = dict(level='other',
+   text='Deductive kernel: the representation invariant of SynchronizedMessages (_update, _remove) and the stream condition of SelectedMailbox._compare against a ghost IMAP client (EXPUNGE numbers in range and in descending order, none while hidden, EXISTS = server count, FETCH numbers denote the intended uid, final client view = server view) are discharged by z3 from the real source. The session/connection glue (hide_expunged protocol, fork after every command, FETCH merging) is covered by a bounded stand-in: exhaustive two-session programs on the real server with a client model.',
+   note='The preconditions of _compare (frozen views are rank maps; new uids above old ones; hidden expunges stay in view) are not yet proved from fork/add_updates; response constructors and chain/groupby are modelled; the bounded part is exhaustive only on its stated scope; maildir (thread pool) not covered by the interleaving argument.',
+   ref='6 C01')
+CHECKS['C02'] = dict(level='proof',
+   text='The change log of the dict backend is proved a faithful record: representation invariant of _ModSequenceMapping preserved by update/expunge (helpers inlined), find_updated returns exactly the uids with a live record >= m split by kind, and every MailboxData mutator (append/copy/move/delete/update) preserves LogInv (logged uid present <=> its live record is an update) and the per-segment guarantee (every presence or flag change gets a record above the highest mod-seq at segment start) at every yield point, for aliased and non-aliased destinations.',
+   note='Rely = guarantee of the same five writers (cooperative asyncio scheduling); Message construction and FlagOp.apply are used through assumed/proved-elsewhere models; the step from Agree(S,m0) to convergence through update_selected/add_updates is covered by the bounded scenario run and C01, not yet by a discharged obligation; maildir relies on full rescans (set_messages) and is not covered.',
+   ref='6 C02')
 NOT_YET = {}
 def main():
     props = [json.loads(l) for l in open(os.path.join(HERE, 'properties.jsonl'))]
